@@ -208,7 +208,7 @@ trait UnixTimestamp {
 impl UnixTimestamp for SystemTime {
     fn unix_timestamp(&self) -> u64 {
         self.duration_since(SystemTime::UNIX_EPOCH)
-            .unwrap()
+            .unwrap_or_default()
             .as_millis() as u64
     }
 }
@@ -362,11 +362,22 @@ impl Display for ContextProps {
     }
 }
 
+// Milliseconds on the monotonic clock since the first use: idleness is elapsed time, which a
+// difference of two wall-clock dates is not (the wall clock can be stepped in either direction).
+fn monotonic_millis() -> u64 {
+    static START: std::sync::OnceLock<std::time::Instant> = std::sync::OnceLock::new();
+    START.get_or_init(std::time::Instant::now).elapsed().as_millis() as u64
+}
+
 #[derive(Serialize, Debug)]
 pub struct ContextStatistics {
     read_bytes: AtomicUsize,
     read_frames: AtomicUsize,
+    // wall-clock date of the last activity, for display
     last_read: AtomicU64,
+    // monotonic stamp of the last activity, for the idle timeout
+    #[serde(skip)]
+    last_active: AtomicU64,
 }
 
 impl Default for ContextStatistics {
@@ -375,28 +386,32 @@ impl Default for ContextStatistics {
             read_bytes: AtomicUsize::new(0),
             read_frames: AtomicUsize::new(0),
             last_read: AtomicU64::new(SystemTime::now().unix_timestamp()),
+            last_active: AtomicU64::new(monotonic_millis()),
         }
     }
 }
 
 impl ContextStatistics {
+    /// Something happened on this direction now (also: the relay starts now).
+    pub fn touch(&self) {
+        self.last_read
+            .store(SystemTime::now().unix_timestamp(), Ordering::Relaxed);
+        self.last_active.store(monotonic_millis(), Ordering::Relaxed);
+    }
     pub fn incr_sent_bytes(&self, cnt: usize) {
         self.read_bytes.fetch_add(cnt, Ordering::Relaxed);
-        self.last_read
-            .store(SystemTime::now().unix_timestamp(), Ordering::Relaxed)
+        self.touch();
     }
     pub fn incr_sent_frames(&self, cnt: usize) {
         self.read_frames.fetch_add(cnt, Ordering::Relaxed);
-        self.last_read
-            .store(SystemTime::now().unix_timestamp(), Ordering::Relaxed)
+        self.touch();
     }
     pub fn is_timeout(&self, timeout: Duration) -> bool {
         if timeout.is_zero() {
             return false;
         }
-        let last_read = self.last_read.load(Ordering::Relaxed);
-        let now = SystemTime::now().unix_timestamp();
-        now - last_read > timeout.as_millis() as u64
+        let idle = monotonic_millis().saturating_sub(self.last_active.load(Ordering::Relaxed));
+        idle as u128 > timeout.as_millis()
     }
 }
 
@@ -659,7 +674,8 @@ impl Context {
     pub fn set_state(&mut self, state: ContextState) -> &mut Self {
         #[cfg(feature = "metrics")]
         if let Some(last) = self.props.state.last() {
-            let t = last.time.elapsed().unwrap().as_secs_f64();
+            // the wall clock may have been stepped backwards since the last state change
+            let t = last.time.elapsed().unwrap_or_default().as_secs_f64();
             CONTEXT_STATUS
                 .with_label_values(&[
                     last.state.as_str(),
